@@ -25,7 +25,7 @@ PROP = 'C11'
 PROPS_FILE = 'Props/C11.v'
 N = 30
 
-HEADER = """From Coq Require Import List String Bool.
+HEADER = """From Coq Require Import String List Bool.
 From PG Require Import Model.Validation Gen.C11Traces Model.C11Check.
 Import ListNotations.
 Open Scope string_scope.
@@ -83,6 +83,8 @@ def base_data(rng):
 
 def make_models(rng):
     import pygam
+    import pygam.pygam as _pg
+    _pg.ProgressBar = lambda *a, **k: (lambda it: it)       # display only: keep stderr readable
     from pygam import s, l, f
     X, eta, noise = base_data(rng)
 
@@ -332,8 +334,10 @@ def record(res, cases, meta, excs, e, d, value, tag, fitted, skip, obs, text):
                 finding=find_exception(excs, e, kind, d['cont'], fitted)))
     elif not state_ok:
         good = ('OAE',) if kind is None else ('OAE', 'OVE')
-        # a list argument dereferenced before the guard also gives AttributeError: require the guard's message
-        if obs not in good or (obs == 'OAE' and 'not been fitted' not in text):
+        # (the property asks for an AttributeError; one that does not come from the guard is only counted)
+        if obs == 'OAE' and 'not been fitted' not in text:
+            res.count('unfitted:AttributeError-not-from-the-fitted-guard')   # e.g. self.link still a str in check_y
+        if obs not in good:
             res.violations.append(dict(
                 what='%s.%s on an unfitted model did not raise the not-fitted AttributeError' % (e['cls'], e['meth']),
                 input=inp, expected='AttributeError (GAM has not been fitted)' + ('' if kind is None else ' or ValueError'),
